@@ -187,7 +187,7 @@ func vttGenModel(r *fw.Rand, forWriter bool) vttModel {
 		for l := 0; l < r.Range(1, 3); l++ {
 			line := vttLine{}
 			if r.P(1, 4) {
-				line.Voice = fw.Pick(r, []string{"Bob", "Esme Mrs Jones", "中文", "Ünï Cöde"})
+				line.Voice = fw.Pick(r, []string{"Bob", "Esme Mrs Jones", "中文", "Ünï Cöde", "Tom & Jerry", "R&D", "O'Neil \"Mac\""})
 			}
 			txt := genText(r, textOpts{amp: true, lt: true, gt: true, nbsp: true, braces: true, comma: true, ampEntity: true, maxWords: 5})
 			pieces := splitRuns(r, txt, r.Range(1, 4))
@@ -427,9 +427,9 @@ func vttRenderDoc(m vttModel, o vttRender, r *fw.Rand) []byte {
 		for li, line := range c.Lines {
 			if line.Voice != "" {
 				if o.voiceClass {
-					b.WriteString("<v.loud.fast " + line.Voice + ">") // classes on the voice tag do not change the voice name
+					b.WriteString("<v.loud.fast " + strings.ReplaceAll(line.Voice, "&", "&amp;") + ">") // classes on the voice tag do not change the voice name
 				} else {
-					b.WriteString("<v " + line.Voice + ">")
+					b.WriteString("<v " + strings.ReplaceAll(line.Voice, "&", "&amp;") + ">") // a literal & in an annotation is written as a character reference
 				}
 			}
 			for si, seg := range line.Segs {
@@ -807,7 +807,8 @@ func vttDecodeLine(l string) (vttLine, error) {
 				}
 				stack = stack[:len(stack)-1]
 			case strings.HasPrefix(inner, "v ") && first:
-				line.Voice = inner[2:]
+				// character references in the annotation (decoded in one pass, like in text)
+				line.Voice = strings.NewReplacer("&amp;", "&", "&lt;", "<", "&gt;", ">", "&nbsp;", "\u00a0").Replace(inner[2:])
 			default:
 				flush()
 				t := vttTag{}
